@@ -124,6 +124,20 @@ func checkC18(c *Ctx, r *Report) {
 			sums := callsIn(f, "crypto/sha256.Sum256")
 			parses := callsIn(f, "crypto/x509.ParseCertificate")
 			r4.Check(len(sums) == 1 && len(parses) == 1 && strip(sums[0].Common().Args[0]) == strip(parses[0].Common().Args[0]), vrK+": the certificate hashed is the certificate validated", f.Pos(), 2, "", "", "")
+			// ... and it is the first of the chain: the one whose private key the TLS handshake proved the server
+			// holds (CertificateVerify is checked against certificate 0); any later element is just bytes the server
+			// chose to send along, e.g. somebody else's pinned certificate
+			if len(sums) == 1 && len(f.Params) > 0 {
+				okFirst := false
+				if ld, ok := resolveLoad(strip(sums[0].Common().Args[0])).(*ssa.UnOp); ok && ld.Op == token.MUL {
+					if ia, ok := ld.X.(*ssa.IndexAddr); ok {
+						k, isC := constInt(ia.Index)
+						base := strip2(ia.X)
+						okFirst = isC && k == 0 && (base == ssa.Value(f.Params[0]) || isParamCellLoad(c, base, f.Params[0]))
+					}
+				}
+				r4.Check(okFirst, vrK+": the certificate pinned and validated is element 0 of the chain presented", instrPos(sums[0].(ssa.Instruction)), 1, "", "the TLS handshake authenticates the key of the first certificate; pinning another element lets a server without the pinned key present any certificate of its own (RSA, long-lived, unpinned) and append the pinned one", "")
+			}
 		}
 		r4.guard(f, "return nil", rets, "ParseCertificate err==nil", edgeNil(isCallResult(1, "crypto/x509.ParseCertificate"), true), nil)
 		// RSA rejection: constants compared with cert.SignatureAlgorithm whose equal edge cannot reach success
@@ -248,7 +262,7 @@ func checkC18(c *Ctx, r *Report) {
 		for _, k := range []string{"(*" + cmT + ").cacheSerializedCertHashes", "(*" + cmT + ").cacheAddrComponent"} {
 			calls := findInstrs(f, callPred(k))
 			for _, ret := range rets {
-				w, n := (&Cut{Fn: f, Target: isInstr(ret), Sep: inSet(calls)}).Run(c)
+				w, n := (&Cut{Fn: f, Target: isInstr(ret), EdgeCut: failCut(ret), Sep: inSet(calls)}).Run(c)
 				r2.Check(w == "" && len(calls) > 0, rollK+": success passes "+k[strings.LastIndex(k, ".")+1:], instrPos(ret), n+1, "", "a roll-over can succeed without refreshing what is advertised", w)
 			}
 			// caches are refreshed after the rotation
@@ -261,7 +275,7 @@ func checkC18(c *Ctx, r *Report) {
 		for _, ret := range returnsOf(f) {
 			v := retVal(ret, 0)
 			if isResultOfCall(v, 0, "(*"+cmT+").cacheAddrComponent") != nil {
-				w, n := (&Cut{Fn: f, Target: isInstr(ret), Sep: callPred("(*" + cmT + ").cacheSerializedCertHashes")}).Run(c)
+				w, n := (&Cut{Fn: f, Target: isInstr(ret), EdgeCut: failCut(ret), Sep: callPred("(*" + cmT + ").cacheSerializedCertHashes")}).Run(c)
 				r2.Check(w == "", rollK+": tail return passes cacheSerializedCertHashes", instrPos(ret), n+1, "", "", w)
 			}
 		}
@@ -341,6 +355,28 @@ func checkC18(c *Ctx, r *Report) {
 			})
 		}
 		r2.Check(n > 0, "Listen: installs GetConfigForClient", token.NoPos, n, "", "", "")
+	}
+	// ... and the same for the hashes the listener confirms inside the Noise handshake: they are what the manager
+	// serialises at the time of that handshake (a copy taken when the listener was created stops matching the
+	// advertised address after the first roll-over: every dial with the new address fails "missing cert hash")
+	if f := r2.need("(*" + wtPkg + ".listener).handshake"); f != nil {
+		snd := callsIn(f, wtPkg+".newEarlyDataSender")
+		okS := len(snd) == 1
+		if okS {
+			var fresh ssa.CallInstruction
+			okS = derivesFrom(snd[0].Common().Args[0], func(v ssa.Value) bool {
+				ci := isResultOfCall(v, 0, "(*"+cmT+").SerializedCertHashes")
+				if ci != nil {
+					fresh = ci
+				}
+				return ci != nil
+			})
+			if okS {
+				okS = len(findInstrs(f, func(in ssa.Instruction) bool { return in == fresh.(ssa.Instruction) })) == 1
+			}
+		}
+		r2.Check(okS, "(*listener).handshake: the hashes confirmed to the dialer are the manager's SerializedCertHashes() of this handshake", f.Pos(), 2, "",
+			"the listener confirms the hashes that were current when it was created; after a roll-over they no longer cover the advertised address and every dial is refused", "")
 	}
 	if f := r2.need("(*" + cmT + ").background"); f != nil {
 		fs := append([]*ssa.Function{f}, f.AnonFuncs...)
@@ -736,7 +772,7 @@ func checkC18(c *Ctx, r *Report) {
 				}
 				// and the callback's nil return passes the flag assignment
 				for _, ret := range successReturns(cb) {
-					w, n := (&Cut{Fn: cb, Target: isInstr(ret), Sep: inSet(sets)}).Run(c)
+					w, n := (&Cut{Fn: cb, Target: isInstr(ret), EdgeCut: failCut(ret), Sep: inSet(sets)}).Run(c)
 					r5.Check(w == "", upK+"$cb: nil return passes verified=true", instrPos(ret), n+1, "", "", w)
 				}
 			}
